@@ -33,6 +33,7 @@ theorem stepW_dead (cfg : Cfg) (sh : Shared) (w : Nat) (wk : Worker) :
   · exact doUnlink_dead _ _ _ _ _ rfl
   · rfl
   · rfl
+  · rfl
   · exact doRename_dead _ _ _ _ _ rfl
   · exact doUnlink_dead _ _ _ _ _ rfl
 
@@ -90,6 +91,7 @@ theorem stepW_effect (cfg : Cfg) (sh : Shared) (w : Nat) (wk : Worker) :
   · rename_i hpc
     exact doRename_effect _ _ _ _ _ rfl rfl (Or.inl hpc)
   · exact doUnlink_effect _ _ _ _ _ rfl rfl
+  · exact .same rfl (by simp [holding])
   · exact .same rfl (by simp [holding])
   · rename_i hpc
     exact .same rfl (by simp [holding, hpc])
@@ -238,7 +240,7 @@ theorem safeSched_take (cfg : Cfg) (st : St) (evs : List Ev) (k : Nat) (h : safe
 /-! ### without a grace period nobody ever attempts a takeover -/
 
 def tkFree : PC → Bool
-  | .stat | .resetTimer | .check | .tkRename | .tkUnlink => false
+  | .stat | .resetTimer | .check | .tkRename | .tkUnlink | .tkRestart => false
   | _ => true
 
 def TkFree (st : St) : Prop := ∀ (w : Nat) (wk : Worker), st.ws[w]? = some wk → tkFree wk.pc = true
@@ -252,6 +254,7 @@ theorem stepW_tkFree (cfg : Cfg) (hg : cfg.grace = none) (sh : Shared) (w : Nat)
     · cases cfg.kind <;> rfl
     · simp [hg, tkFree]
   · rfl
+  · rename_i hpc; rw [hpc] at h; simp [tkFree] at h
   · rename_i hpc; rw [hpc] at h; simp [tkFree] at h
   · rename_i hpc; rw [hpc] at h; simp [tkFree] at h
   · rename_i hpc; rw [hpc] at h; simp [tkFree] at h
@@ -353,6 +356,7 @@ theorem stepW_pc_ne (cfg : Cfg) (sh : Shared) (w : Nat) (wk : Worker) : (stepW c
   · unfold doUnlink; split <;> simp [hpc]
   · simp [hpc]
   · simp [hpc]
+  · simp [hpc]
   · unfold doRename; split <;> simp [hpc]
   · unfold doUnlink; split <;> simp [hpc]
 
@@ -404,8 +408,8 @@ theorem run_solo (cfg : Cfg) (w : Nat) (k : Nat) : ∀ (st : St) (wk : Worker), 
 theorem solo_takeover (cfg : Cfg) (g : Nat) (hg : cfg.grace = some g) (sh : Shared) (w : Nat) (wk : Worker) (o s : Nat)
     (hpc : wk.pc = .create) (hlock : sh.lock = some (o, s)) (hm : wk.mtime = some (statVal cfg sh s))
     (hlast : wk.last + g < sh.now) :
-    (solo cfg w (match cfg.kind with | .symlink => 7 | .openExcl => 8) (sh, wk)).1.lock = some (w, sh.now) ∧
-    (solo cfg w (match cfg.kind with | .symlink => 7 | .openExcl => 8) (sh, wk)).2.pc = .crit := by
+    (solo cfg w (match cfg.kind with | .symlink => 8 | .openExcl => 9) (sh, wk)).1.lock = some (w, sh.now) ∧
+    (solo cfg w (match cfg.kind with | .symlink => 8 | .openExcl => 9) (sh, wk)).2.pc = .crit := by
   obtain ⟨kind, grace⟩ := cfg
   obtain ⟨pc, dead, mtime, last, nren, failed⟩ := wk
   obtain ⟨lock, tgt, now, tmps⟩ := sh
